@@ -1173,6 +1173,10 @@ class Emitter:
                 continue
             if f not in out:
                 out.append(f)
+        if known and not out:
+            # llvm merges structurally identical class types (e.g. %class.pred into %class.op), so the
+            # static class name can be wrong: fall back to slot + shape over all vtables
+            return self.virtual_candidates(None, idx, sh)
         return out
 
     def dispatchers(self):
@@ -1897,7 +1901,9 @@ class FuncEmitter:
             else:
                 c.append('*%s = %s;' % (self.val(I['pt'], I['b']), self.val(I['t'], I['a'])))
         elif op == 'getelementptr':
-            nonzero = any(not (iv[0] == 'int' and iv[1] == 0) for it, iv in I['idx'])
+            # constant non-zero offset or member access: the base must be a real object;
+            # plain pointer arithmetic with a variable index may legally be null + 0
+            nonzero = any(iv[0] == 'int' and iv[1] != 0 for it, iv in I['idx'])
             if nonzero or len(I['idx']) > 1:
                 self.nn(I['base'])
                 self.nonnull.add(d)
